@@ -16,11 +16,15 @@ pub mod h_top {
 pub mod h_top2 {
     include!(concat!(env!("CHUMSKY_VERIF_DIR"), "/h_top2.rs"));
 }
+pub mod h_inputref {
+    include!(concat!(env!("CHUMSKY_VERIF_DIR"), "/h_inputref.rs"));
+}
 pub fn register_all(r: &mut Vec<(&'static str, fn())>) {
     h_comb::register(r);
     h_prim::register(r);
     h_comb2::register(r);
     h_iter::register(r);
     h_top::register(r);
+    h_inputref::register(r);
     h_top2::register(r);
 }
